@@ -193,6 +193,7 @@ func (this *Hnsw) Remove(id uuid.UUID) error {
 		if closestNeighbor == nil {
 			closestNeighbor = this.anyVertex()
 		}
+		verifPause("remove:before-handover")
 		atomic.CompareAndSwapPointer(&this.entrypoint, currEntrypoint, unsafe.Pointer(closestNeighbor))
 	}
 
